@@ -12,7 +12,10 @@ SCR=$(mktemp -d /tmp/verif-scratch.XXXXXX)
 trap 'rm -rf "$SCR"' EXIT
 rsync -a --exclude .git --exclude /jqawk /repo/ "$SCR/"
 if [ "$1" = "--reverse" ]; then
-  git -C /repo show "$2" -- src cli | (cd "$SCR" && patch -R -p1 -s) || { echo "SKIP reverse of $2 does not apply"; exit 3; }
+  # several commits of one repair are given as a+b (oldest first) and undone newest first
+  for h in $(echo "$2" | tr '+' '\n' | tac); do
+    git -C /repo show "$h" -- src cli | (cd "$SCR" && patch -R -p1 -s) || { echo "SKIP reverse of $h does not apply"; exit 3; }
+  done
   NAME="reverse-of-$2"; shift 2
 else
   (cd "$SCR" && patch -p1 -s < "$1") || { echo "SKIP $1 does not apply"; exit 3; }
